@@ -259,6 +259,9 @@ def gen_cases(tier, seed):
     cs = []
     for i, b in enumerate(gen_cases_corpus(n, seed, opts={'max_stmts': 7}, with_repo=True)):
         cs.append({'kind': 'prog', 'base': b, 'k': i})
+    from .common import shape_cases
+    for i, b_ in enumerate(shape_cases(24 if tier == 'quick' else None, seed)):
+        cs.append({'kind': 'prog', 'base': b_, 'k': i})
     chars = cp437_chars()
     for i in range(0, len(chars), 16):
         cs.append({'kind': 'lits', 'chars': chars[i:i + 16]})
